@@ -97,6 +97,8 @@ type Field struct {
 	Oneof    int // 1-based index into Message.Oneofs; 0 = none
 	Comment  string
 	Ann      Ann
+	// JSON is an explicit json_name (the protoc field option); "" = protoc's default lowerCamel of Name.
+	JSON string
 }
 
 // Oneof of a message.
@@ -233,6 +235,7 @@ func FE(name string, num int32, typeName string) *Field {
 }
 
 func (f *Field) Doc(c string) *Field     { f.Comment = c; return f }
+func (f *Field) JSONAs(n string) *Field  { f.JSON = n; return f }
 func (f *Field) Opt() *Field             { f.Card = Optional; return f }
 func (f *Field) Rep() *Field             { f.Card = Repeated; return f }
 func (f *Field) MapOf(key T) *Field      { f.Card = Map; f.MapKey = key; return f }
